@@ -6,7 +6,8 @@
    collators; every fresh generator is `Wrk k`, k = how many seeds the worker's global NumPy RNG had handed out
    before) and `stack_draws` (all generators samples and batches of the stack can draw from).  Here:
      - UNITS: one per member of a called transform field of a wrapper (that top-level transform and everything
-       nested in it share the one generator KDTransform.worker_init_fn creates) and one for the collators of a root;
+       nested in it share the one generator KDTransform.worker_init_fn creates), one for the collators of a root, and
+       one per wrapper for the draws of its own per-item code (MUGS / mix wrapper without seed: a process-global source);
      - who OWNS the k-th worker seed;
      - the stack without its generator slots (what the copies held by all workers, and the parent, have in common). *)
 From Coq Require Import ZArith List Bool String.
@@ -16,8 +17,10 @@ From KD Require Import C07.RngGraph C07.ModelC08.
 Definition kids_units (tbl : table) (calls : list string) (kids : list (string * list tree)) : list (list prov) :=
   flat_map (fun fk : string * list tree => if mem (fst fk) calls then map (draws tbl) (snd fk) else []) kids.
 
+(* the wrapper's own (unseeded-path) draws are a unit of their own, in front of the units of its transform fields *)
 Definition wobj_units (tbl : table) (wt : wtable) (w : wobj) : list (list prov) :=
   match w with WObj c kids =>
+    own_draws wt c ::
     match wlookup wt c with
     | Some d => kids_units tbl (w_calls d) kids
     | None => []
